@@ -86,7 +86,8 @@ impl SetChecked for HCtx {
 
 /// Joins tokens without spaces except between two word-like tokens (which would fuse).
 fn render_compact(ts: &[T]) -> String {
-    let wordy = |t: &T| matches!(t, T::Lit(_) | T::Ident(_));
+    // words fuse when glued; string literals do not (`"a""b"` is two literals without a gap)
+    let wordy = |t: &T| matches!(t, T::Lit(_) | T::Ident(_)) && !t.text().starts_with('"');
     let mut s = String::new();
     for (i, t) in ts.iter().enumerate() {
         if i > 0 && wordy(&ts[i - 1]) && wordy(t) {
